@@ -302,15 +302,7 @@ fn model_atan2(y: &Jet<f64>, x: &Jet<f64>, b: &Basis) -> (Vec<f64>, Vec<f64>) {
 
 fn main() {
     let ctx = Ctx::from_args("C01");
-    // History: the first caller of every function in this process is a 32-bit type.  State that is
-    // initialised once per process by whoever comes first (a cached constant, a lazily built table)
-    // must not inherit the first caller's precision; the 64-bit types below would see it.
-    for x0 in [0.5f32, 1.5f32] {
-        let x = num_dual::Dual32::new(x0, 1.0);
-        for f in c01_funcs() {
-            let _ = ndv_core::evidence::guarded(|| apply::<num_dual::Dual32, f32>(f, &x));
-        }
-    }
+    ndv_checks::warm_up_f32();
     let acc = ctx.parallel(|shard, nshards| {
         let mut acc = Acc::new();
         let mut t = 0u64;
